@@ -53,7 +53,9 @@ TSend == /\ Is("Send") /\ Ln.s \in conn /\ Ln.n = nsent + 1
          /\ UNCHANGED <<c, conn, tree, refl, defr, nops, chk>> /\ Step
 \* a tolerated second copy that did not come is skipped when the next Message of the pair arrives
 Skip(q, n) == IF q # << >> /\ Head(q).opt /\ Head(q).n # n THEN Tail(q) ELSE q
-SidOK(want, got, from) == got = want \/ (want = "nonstr" /\ got = from)       \* a non-string field of that name: the documentation is silent
+\* "if the delivered Message has a string field of that name, it names the sender": a field the library would add, or a non-string field
+\* of that name that it would replace, would satisfy the property as well (the documentation is silent: either)
+SidOK(want, got, from) == got = want \/ (want \in {"none", "nonstr"} /\ got = from)
 TRecv == /\ Is("Recv") /\ Ln.r \in conn /\ Ln.from \in conn
          /\ LET q == Skip(pairq[Ln.from][Ln.r], Ln.n)
             IN /\ q # << >> /\ Head(q).n = Ln.n /\ SidOK(Head(q).sid, Ln.sid, Ln.from)
